@@ -33,7 +33,14 @@ class Parse(Stream):
         def f():
             ch = mlang.mk_chord(case["chord"])
             n = ch.parse(case["p"])
-            return {"note": sg.read_note(n), "back": int(ch.to_pitch(n)), "scale": [int(x) % 12 for x in ch.scale_pitches]}
+            out = {"note": sg.read_note(n), "back": int(ch.to_pitch(n)), "scale": [int(x) % 12 for x in ch.scale_pitches]}
+            # the importer and the projections edit the note they are handed (duration, amplitude): the next answer of the same chord
+            # object for the same pitch is again the plain quarter note
+            n.duration, n.amp = F(3, 2), 17
+            again = ch.parse(case["p"])
+            out["again"] = [sg.read_note(again), F(again.duration), int(again.amp)]
+            out["first"] = [out["note"], F(1), 66]
+            return out
         return mlang.guarded(f)
 
     def term(self, case, r):
@@ -50,6 +57,8 @@ class Parse(Stream):
         if r["back"] != p:
             return {"sig": "parse-roundtrip", "msg": f"{p} -> {r['note']} -> {r['back']}"}
         n = r["note"]
+        if r["again"][0] != n or r["again"][1] != 1:
+            return {"sig": "parse-depends-on-earlier-result", "msg": f"{p}: first {n}, after the caller edited that note: {r['again']}"}
         if (n["kind"] == "s") != (p % 12 in r["scale"]):
             return {"sig": "parse-scale-note-iff-in-scale", "msg": f"{p}: {n}"}
         if not (0 <= n["val"] < (7 if n["kind"] == "s" else 12)):
@@ -107,7 +116,7 @@ class Import(Stream):
             voices = rand_voices(rng, nb, lens)
             while not any(voices):
                 voices = rand_voices(rng, nb, lens)
-            yield {"chords": chords, "lens": lens, "voices": voices}
+            yield {"chords": chords, "lens": lens, "voices": voices, "order": rng.choice(["onset", "onset", "voice", "voice_rev"])}
 
     def impl(self, case):
         from musiclang.analyze.to_musiclang import infer_score_with_chords_durations
@@ -117,7 +126,12 @@ class Import(Stream):
             for v, notes in enumerate(case["voices"]):
                 for n in notes:
                     items.append(Item("n", F(n["start"]), F(n["end"]), vel=n["vel"], pitch=60 + n["pitch"], track=0, channel=0, voice=v))
-            items.sort(key=lambda x: x.start)
+            if case.get("order") == "voice":
+                pass                                     # voice after voice, as a writer that walks the voices would list them
+            elif case.get("order") == "voice_rev":
+                items.sort(key=lambda x: (-x.track, -x.voice, x.start))   # the last voice first; inside a voice always by onset
+            else:
+                items.sort(key=lambda x: x.start)
             if case.get("via_table"):
                 # the entry point of the MIDI import: a table of notes (exact quarter-note positions) turned into items by convert_to_items
                 import pandas as pd
@@ -222,7 +236,8 @@ class ImportTracks(Stream):
             instr = rng.choice([["piano"] * ntr, ["piano", "violin", "piano"][:ntr], ["flute", "flute", "cello"][:ntr],
                                 # pitched General MIDI instruments whose name contains 'drum': not drum kits
                                 ["steel_drums", "piano", "taiko_drum"][:ntr], ["synth_drum", "synth_drum", "violin"][:ntr]])
-            yield {"chords": chords, "lens": lens, "tracks": tracks, "instr": instr, "via_table": rng.random() < 0.5}
+            yield {"chords": chords, "lens": lens, "tracks": tracks, "instr": instr, "via_table": rng.random() < 0.5,
+                   "order": rng.choice(["onset", "onset", "voice", "voice_rev"])}
 
     def impl(self, case):
         from musiclang.analyze.to_musiclang import infer_score_with_chords_durations
@@ -233,7 +248,12 @@ class ImportTracks(Stream):
                 for v, notes in enumerate(voices):
                     for n in notes:
                         items.append(Item("n", F(n["start"]), F(n["end"]), vel=n["vel"], pitch=60 + n["pitch"], track=ti, channel=ti, voice=v))
-            items.sort(key=lambda x: x.start)
+            if case.get("order") == "voice":
+                pass                                     # voice after voice, as a writer that walks the voices would list them
+            elif case.get("order") == "voice_rev":
+                items.sort(key=lambda x: (-x.track, -x.voice, x.start))   # the last voice first; inside a voice always by onset
+            else:
+                items.sort(key=lambda x: x.start)
             if case.get("via_table"):
                 # the entry point of the MIDI import: a table of notes (exact quarter-note positions) turned into items by convert_to_items
                 import pandas as pd
